@@ -210,7 +210,8 @@ func (cr *serverConnReader) readFuncStandard() error {
 	for {
 		// when FFmpeg is recording with UDP, it does not send keepalives, no matter what.
 		// disable read deadline.
-		if cr.sc.session != nil && cr.sc.session.state == ServerSessionStateRecord {
+		// the session can be driven by other connections too, use thread-safe getters
+		if ss := cr.sc.Session(); ss != nil && ss.State() == ServerSessionStateRecord {
 			cr.sc.nconn.SetReadDeadline(time.Time{})
 		} else {
 			cr.sc.nconn.SetReadDeadline(time.Now().Add(cr.sc.s.IdleTimeout))
